@@ -512,4 +512,30 @@ def _alias_views(g, names, keys, ty):
                         bad.append(f'get_edge_by_pair / graph[a, b] / get_edge disagree for ({a!r},{b!r})')
             except Exception as e:  # noqa: BLE001
                 bad.append(f'a by-pair view of ({a!r},{b!r}) raised {err_name(e)}')
+    # typed look-ups: get_edge(a, b, edge_type=t) hands out the edge exactly for its own type and raises
+    # EdgeDoesNotExistError for every other type; edge_exists / get_edges filter by type the same way
+    from cai_causal_graph.exceptions import CausalGraphErrors as _E
+    for (a, b) in keys[:8]:
+        for t in ('->', '--', '<>', 'oo', 'o>', 'o-'):
+            try:
+                for form in (EdgeType(t), t):
+                    try:
+                        e = g.get_edge(a, b, edge_type=form)
+                        got = True
+                    except _E.EdgeDoesNotExistError:
+                        got = False
+                    if got != (ty[(a, b)] == t) or (got and e is not g.get_edge(a, b)):
+                        bad.append(f'get_edge({a!r},{b!r}, edge_type={form!r}) on a stored {ty[(a, b)]} edge: '
+                                   f'{"returned an edge" if got else "EdgeDoesNotExistError"}')
+                    if g.edge_exists(a, b, edge_type=form) != (ty[(a, b)] == t):
+                        bad.append(f'edge_exists({a!r},{b!r}, edge_type={form!r}) wrong on a stored {ty[(a, b)]} edge')
+            except Exception as e:  # noqa: BLE001
+                bad.append(f'a typed look-up of ({a!r},{b!r}) raised {err_name(e)}')
+    for t in ('->', '--', '<>', 'oo', 'o>', 'o-'):
+        try:
+            sel = [(e.source.identifier, e.destination.identifier) for e in g.get_edges(edge_type=EdgeType(t))]
+            if sel != [k for k in keys if ty[k] == t]:
+                bad.append(f'get_edges(edge_type={t!r}) disagrees with get_edges()')
+        except Exception as e:  # noqa: BLE001
+            bad.append(f'get_edges(edge_type={t!r}) raised {err_name(e)}')
     return bad
